@@ -170,6 +170,33 @@ def Hint.isPair (h : Hint) : Bool := (h.flags / 4) % 2 == 1 || (h.flags / 8) % 2
 /-- `Hint::is_locked`: `flags & LOCKED != 0` -/
 def Hint.isLocked (h : Hint) : Bool := (h.flags / 16) % 2 == 1
 
+/-- the body of the first pass for an UNLOCKED unit `i ..= j` (`j = i + 1` for a pair): reads `edges[j]`, the
+    neighbours `edges[j + 1]` / `edges[i - 1]` when they exist, and possibly records `j` in `saved` -/
+def adjustUnit (edges : List Hint) (len : Nat) (ora : Nat → Nat → Bool) (i j : Nat) (saved : List Nat) :
+    Option (List Nat) :=
+  match getAt edges j with                               -- `self.edges[j].ds_coord.fract()`
+  | none => none
+  | some _ =>
+    -- `j >= self.len - 1 || self.edges[j + 1].ds_coord >= …`
+    let up : Option Bool := if j ≥ len - 1 then some true else (getAt edges (j + 1)).map (fun _ => ora i 0)
+    match up with
+    | none => none
+    | some up =>
+      -- `i == 0 || self.edges[i - 1].ds_coord <= …` (evaluated on both paths)
+      let down : Option Bool := if i = 0 then some true else (getAt edges (i - 1)).map (fun _ => ora i 1)
+      match down with
+      | none => none
+      | some down =>
+        let save : Bool := if up then false else if down then ora i 2 else true
+        -- `if save_edge && j < self.len - 1 && !self.edges[j + 1].is_locked() { saved[saved_count] = …; saved_count += 1 }`
+        if save ∧ j < len - 1 then
+          match getAt edges (j + 1) with
+          | none => none
+          | some n =>
+            if !n.isLocked then (if saved.length < MAX_HINTS then some (j :: saved) else none)
+            else some saved
+        else some saved
+
 /-- first pass of `adjust` from index `i` with `saved` (newest first); `fuel` = remaining iterations (`len` suffices) -/
 def adjustPass1 (edges : List Hint) (len : Nat) (ora : Nat → Nat → Bool) : Nat → Nat → List Nat → Option (List Nat)
   | 0, _, saved => some saved
@@ -178,41 +205,15 @@ def adjustPass1 (edges : List Hint) (len : Nat) (ora : Nat → Nat → Bool) : N
       match getAt edges i with                                   -- `self.edges[i].is_pair()`
       | none => none
       | some ei =>
-        let isPair := ei.isPair
-        let j := if isPair then i + 1 else i
-        let r : Option (List Nat) :=
-          if !ei.isLocked then
-            match getAt edges j with                               -- `self.edges[j].ds_coord.fract()`
-            | none => none
-            | some _ =>
-              -- `j >= self.len - 1 || self.edges[j + 1].ds_coord >= …`
-              let up : Option Bool := if j ≥ len - 1 then some true else (getAt edges (j + 1)).map (fun _ => ora i 0)
-              match up with
-              | none => none
-              | some up =>
-                -- `i == 0 || self.edges[i - 1].ds_coord <= …` (evaluated on both paths)
-                let down : Option Bool := if i = 0 then some true else (getAt edges (i - 1)).map (fun _ => ora i 1)
-                match down with
-                | none => none
-                | some down =>
-                  let save : Bool := if up then false else if down then ora i 2 else true
-                  -- `if save_edge && j < self.len - 1 && !self.edges[j + 1].is_locked() { saved[saved_count] = …; saved_count += 1 }`
-                  if save ∧ j < len - 1 then
-                    match getAt edges (j + 1) with
-                    | none => none
-                    | some n =>
-                      if !n.isLocked then (if saved.length < MAX_HINTS then some (j :: saved) else none)
-                      else some saved
-                  else some saved
-          else some saved
-        match r with
+        let j := if ei.isPair then i + 1 else i
+        match (if !ei.isLocked then adjustUnit edges len ora i j saved else some saved) with
         | none => none
         | some saved =>
           -- `if i > 0 && self.edges[i].cs_coord != self.edges[i - 1].cs_coord`
           match (if i > 0 then (getAt edges (i - 1)).map (fun _ => ()) else some ()) with
           | none => none
           | some _ =>
-            if isPair then
+            if ei.isPair then
               match getAt edges j with                             -- `self.edges[j]`, `self.edges[j - 1]` (= `edges[i]`)
               | none => none
               | some _ => adjustPass1 edges len ora fuel (i + 2) saved
